@@ -27,18 +27,20 @@ static KO *pk[1 << 16]; static VO *pvv[1 << 16]; static int npk, npv;
 
 static void dl (const char *pfx, int id) { dlen += (size_t) snprintf (dlog + dlen, sizeof dlog - dlen, "%s%s%d", dlen ? " " : "", pfx, id); }
 
-static void key_destroy (ppointer p) { KO *k = p; if (k->magic != KMAGIC) { puts ("CORRUPT-KEY"); exit (4); } dl ("k", k->id); k->magic = 0; free (k); }
-static void val_destroy (ppointer p) { VO *v = p; if (v->magic != VMAGIC) { puts ("CORRUPT-VALUE"); exit (4); } dl ("v", v->id); v->magic = 0; free (v); }
+static void key_destroy (ppointer p) { KO *k = p; if (!k) { dlen += (size_t) snprintf (dlog + dlen, sizeof dlog - dlen, "%skN", dlen ? " " : ""); return; } if (k->magic != KMAGIC) { puts ("CORRUPT-KEY"); exit (4); } dl ("k", k->id); k->magic = 0; free (k); }
+static void val_destroy (ppointer p) { VO *v = p; if (!v) { dlen += (size_t) snprintf (dlog + dlen, sizeof dlog - dlen, "%svN", dlen ? " " : ""); return; } if (v->magic != VMAGIC) { puts ("CORRUPT-VALUE"); exit (4); } dl ("v", v->id); v->magic = 0; free (v); }
 
+/* NULL is a legal key: it orders as 0 */
+static const KO null_key = { 0, -1, KMAGIC };
 static pint cmp_data (pconstpointer a, pconstpointer b, ppointer data) {
-	const KO *x = a, *y = b;
+	const KO *x = a ? a : &null_key, *y = b ? b : &null_key;
 	if (withdata && data != &data_cookie) { puts ("DATA-MISMATCH"); exit (4); }
 	if (!withdata && data != NULL) { puts ("DATA-MISMATCH"); exit (4); }
 	if (probing && plen < 256) path[plen++] = y->ord;
 	return x->ord < y->ord ? -1 : x->ord > y->ord ? 1 : 0;
 }
 static pint cmp_plain (pconstpointer a, pconstpointer b) {
-	const KO *x = a, *y = b;
+	const KO *x = a ? a : &null_key, *y = b ? b : &null_key;
 	if (probing && plen < 256) path[plen++] = y->ord;
 	return x->ord < y->ord ? -1 : x->ord > y->ord ? 1 : 0;
 }
@@ -98,7 +100,10 @@ static char vlog[1 << 18]; static size_t vlen;
 static pboolean visit (ppointer key, ppointer value, ppointer data) {
 	KO *k = key; VO *v = value;
 	if (data != &visits) { puts ("DATA-MISMATCH"); exit (4); }
-	vlen += (size_t) snprintf (vlog + vlen, sizeof vlog - vlen, "%s%d:k%d:v%d", vlen ? " " : "", k->ord, k->id, v->id);
+	char kb[16] = "N", vb[16] = "N";
+	if (k) snprintf (kb, sizeof kb, "%d", k->id);
+	if (v) snprintf (vb, sizeof vb, "%d", v->id);
+	vlen += (size_t) snprintf (vlog + vlen, sizeof vlog - vlen, "%s%d:k%s:v%s", vlen ? " " : "", k ? k->ord : 0, kb, vb);
 	++visits;
 	return stop_at != 0 && visits >= stop_at;
 }
@@ -133,6 +138,18 @@ int main (void) {
 			k->ord = o; k->id = next_id; k->magic = KMAGIC; v->id = next_id; v->magic = VMAGIC; ++next_id;
 			if (plain || vonly) pk[npk++] = k;
 			if (plain || konly) pvv[npv++] = v;
+			p_tree_insert (tree, k, v);
+			present[o] = 1;
+			printf ("n=%d d=[%s]\n", p_tree_get_nnodes (tree), dlog);
+		} else if ((!strcmp (op, "insv") && n == 2) || (!strcmp (op, "insk") && n == 1) || (!strcmp (op, "inskv") && n == 1)) {
+			/* NULL as value / key / both (integer 0 through PINT_TO_POINTER, "no payload") */
+			int nk = op[3] == 'k', nv = op[3] == 'v' || op[4] == 'v';
+			int o = nk ? 0 : atoi (a1);
+			if (o < 0 || o >= MAXORD) { puts ("bad-op"); continue; }
+			KO *k = NULL; VO *v = NULL;
+			if (!nk) { k = malloc (sizeof *k); k->ord = o; k->id = next_id; k->magic = KMAGIC; if (plain || vonly) pk[npk++] = k; }
+			if (!nv) { v = malloc (sizeof *v); v->id = next_id; v->magic = VMAGIC; if (plain || konly) pvv[npv++] = v; }
+			++next_id;
 			p_tree_insert (tree, k, v);
 			present[o] = 1;
 			printf ("n=%d d=[%s]\n", p_tree_get_nnodes (tree), dlog);
